@@ -71,16 +71,24 @@ structure Stamp where
   runs : Nat
 deriving DecidableEq, Repr, Inhabited
 
+/-- the lists a body sees through `self`, in order and with multiplicity: `self.dependencies` (`deps=` then `sources=`,
+as labels; `self.sources` are the last of them) and `self.generates`. `targetInfo.Attrs` is a `sha256` of them; the
+model keeps the lists themselves (collision-freedom is the standing assumption on `sha256`). -/
+abbrev Attrs := List Label × List Path
+
 /-- `targetInfo` (the `doc` field is written and never read by the engine) -/
 structure Rec where
   deps : List (Label × Stamp)
   data : Data
   rerun : Bool
   runs : Nat
+  /-- D32 repair: the lists as of the last successful execution; `none` = not recorded (no record, a source, a failure
+  record, a record written before the repair) -/
+  attrs : Option Attrs
 deriving DecidableEq, Repr, Inhabited
 
 /-- `targetInfo{}`: what `loadTargetInfo` returns when there is no record file -/
-def emptyRec : Rec := ⟨[], .empty, false, 0⟩
+def emptyRec : Rec := ⟨[], .empty, false, 0, none⟩
 
 inductive Index
   | absent
@@ -108,6 +116,9 @@ structure Def where
   /-- src: the file or directory -/
   path : Path
 deriving Repr, Inhabited
+
+/-- `function.attrs()` -/
+def attrsOf (d : Def) : Attrs := (d.deps, d.gens)
 
 structure Tree where
   defs : Label → Option Def
@@ -193,15 +204,18 @@ def saveSteps (l : Label) (r : Rec) : List Step :=
 structure Params where
   /-- `sha256` of a file's bytes / of a directory's listing (injective: a hypothesis of the theorems, never an axiom) -/
   sum : SrcVal → SrcVal
-  /-- what a body writes to generated file `g`, as a function of its environment and of the files of the
-  dependencies it reads: bodies are deterministic and hermetic by construction -/
-  out : Label → Env → List (Label × List (Path × SrcVal)) → Path → Nat
+  /-- what a body writes to generated file `g`, as a function of its environment, of the lists it is handed through
+  `self` (order and multiplicity included) and of the files of the dependencies it reads: bodies are deterministic and
+  hermetic by construction -/
+  out : Label → Env → Attrs → List (Label × List (Path × SrcVal)) → Path → Nat
   /-- D8 repair: the stamp dependents compare includes the run counter -/
   stampRuns : Bool := true
   /-- D18 repair: a `rerun` record is written before a function target's body runs -/
   marker : Bool := true
   /-- D29 repair: a record that lists more dependencies than the target has now is out of date -/
   depCount : Bool := true
+  /-- D32 repair: a function target whose record remembers other lists than the target has now is out of date -/
+  listCheck : Bool := true
 
 /-- `fileSum`: a missing file has the empty sum -/
 def srcData (P : Params) (v : SrcVal) : Data :=
@@ -261,7 +275,7 @@ def observe (t : Tree) (w : World) (x : Label) : List (Path × SrcVal) :=
 /-- what the body of `l` writes: every generated file, as a function of the environment and of what it reads -/
 def bodyWrites (P : Params) (t : Tree) (w : World) (l : Label) (d : Def) : List (Path × Nat) :=
   let obs := d.reads.map fun x => (x, observe t w x)
-  d.gens.map fun g => (g, P.out l d.env obs g)
+  d.gens.map fun g => (g, P.out l d.env (attrsOf d) obs g)
 
 /-- `upToDate()` of the two target kinds -/
 def upToDate (P : Params) (w : World) (d : Def) (info : Rec) : Bool :=
@@ -270,6 +284,14 @@ def upToDate (P : Params) (w : World) (d : Def) (info : Rec) : Bool :=
     if d.always then true
     else info.data == .env d.env && d.gens.all fun g => w.files g != .missing
   | .src => srcData P (w.files d.path) == info.data
+
+/-- D32 repair, the test in `Evaluate`: only function targets are asked; a record without the lists (written before
+the repair) is taken as unchanged -/
+def attrsOK (P : Params) (d : Def) (info : Rec) : Bool :=
+  !P.listCheck || d.kind == .src ||
+    match info.attrs with
+    | none => true
+    | some a => a == attrsOf d
 
 inductive Plan
   /-- a dependency failed; `report`: it was missing, so the dependent reports `TargetFailed` -/
@@ -299,7 +321,8 @@ def plan (P : Params) (t : Tree) (o : Opts) (s : BSt) (l : Label) (d : Def) : Pl
       | _, _ => false) &&
       -- D29 repair: a dependency the target no longer has is a change as well (every present dependency is listed, so
       -- the record lists a former one exactly if it lists more than there are now)
-      (!P.depCount || info.deps.length == deps.length)
+      (!P.depCount || info.deps.length == deps.length) &&
+      attrsOK P d info
     if !o.always && depsUpToDate && upToDate P s.w d info && !info.rerun then .skip info
     else if o.dry then .dry info
     else .run info depData
@@ -309,12 +332,12 @@ def execSteps (P : Params) (t : Tree) (o : Opts) (w : World) (l : Label) (d : De
     (depData : List (Label × Stamp)) : List Step × Rec × Bool :=
   match d.kind with
   | .src =>
-    let r : Rec := ⟨depData, srcData P (w.files d.path), false, info.runs⟩
+    let r : Rec := ⟨depData, srcData P (w.files d.path), false, info.runs, none⟩
     ([⟨none, .bodyBefore, l⟩, ⟨none, .bodyAfter, l⟩, ⟨none, .recordSuccess, l⟩] ++ saveSteps l r, r, true)
   | .fn =>
     let mark := if P.marker then saveSteps l { info with rerun := true } else []
     if o.fails l then
-      let r : Rec := ⟨depData, .empty, true, info.runs⟩
+      let r : Rec := ⟨depData, .empty, true, info.runs, none⟩
       -- a failing body leaves garbage in its first generated file before it fails
       let garbage := match d.gens with
         | g :: _ => [Step.mk (some (.genWrite g 0)) .bodyWrote l]
@@ -323,7 +346,7 @@ def execSteps (P : Params) (t : Tree) (o : Opts) (w : World) (l : Label) (d : De
        r, false)
     else
       let writes := (bodyWrites P t w l d).map fun gc => Step.mk (some (.genWrite gc.1 gc.2)) .bodyWrote l
-      let r : Rec := ⟨depData, .env d.env, false, info.runs + 1⟩
+      let r : Rec := ⟨depData, .env d.env, false, info.runs + 1, some (attrsOf d)⟩
       (mark ++ [⟨none, .bodyBefore, l⟩] ++ writes ++ [⟨none, .bodyAfter, l⟩, ⟨none, .recordSuccess, l⟩] ++ saveSteps l r,
        r, true)
 
